@@ -10,7 +10,7 @@ var placeUsers = []string{"alice", "bob", "carol", "dave.smith", "eve$", "Frank"
 var placeGroups = []string{"dev", "ops", "qa", "admin", "Team-A", "g_1", "nogroup", "alice"}
 var placeQNames = []string{"default", "dev", "prod", "sandbox", "alice", "bob", "team-a", "ns1", "dave_dot_smith", "x", "y"}
 var placeAcls = []string{"", "", "*", "alice", "alice,bob", " dev", "alice dev", "bob,carol ops,qa", "* ", " *", "alice,* dev", "nobody nogroup",
-	"dave.smith", "eve$ qa", "Frank Team-A", "carol", " ops", "x@corp,svc-1", " admin,dev", "bob dev,*", "9bad,bob -g,qa"}
+	"dave.smith", "eve$ qa", "alice *", "bob,carol *", "*,alice", "Frank Team-A", "carol", " ops", "x@corp,svc-1", " admin,dev", "bob dev,*", "9bad,bob -g,qa"}
 
 func placePick(r *Rng, l []string) string { return l[r.Intn(len(l))] }
 
